@@ -170,6 +170,16 @@ def build_harness():
         return True, ""
 
 
+def build_harness_race():
+    """The same harness built with the race detector (build/impl_race); the Go build cache makes this cheap after the first time."""
+    with BuildLock():
+        h = os.path.join(VERIF, "harness")
+        p = run(["go", "build", "-race", "-tags", "verif", "-o", os.path.join(BUILD, "impl_race"), "."], cwd=h, env=GOENV, check=False)
+        if p.returncode != 0:
+            return False, p.stdout.decode(errors="replace")
+        return True, ""
+
+
 def workdir(name):
     d = os.path.join(WORK, "%s.%d" % (name, os.getpid()))
     shutil.rmtree(d, ignore_errors=True)
